@@ -189,7 +189,8 @@ def one(it):
         elif kind == "erc":
             A.WeighERC(lookback=D(lb), lag=D(lag), covar_method=it[6])(s)
         else:
-            A.WeighMeanVar(lookback=D(lb), lag=D(lag), covar_method="standard")(s)
+            mv_bounds = tuple(it[6]) if len(it) > 6 else (0.0, 1.0)
+            A.WeighMeanVar(lookback=D(lb), lag=D(lag), covar_method="standard", bounds=mv_bounds)(s)
         got = as_dict(s.temp["weights"])
         if len(sel) == 0:
             if got != {}:
@@ -200,7 +201,7 @@ def one(it):
         else:
             if sorted(got) != sorted(sel):
                 out.append((kind + "_keys", sorted(sel), sorted(got)))
-            elif not near(sum(got.values()), 1.0, 1e-6) or any(v < -1e-9 for v in got.values()):
+            elif not near(sum(got.values()), 1.0, 1e-6) or (any(v < -1e-9 for v in got.values()) and not (kind == "meanvar" and len(it) > 6 and it[6][0] < 0)):
                 out.append((kind + "_simplex", {"sum": 1.0, "nonnegative": True}, got))
             elif kind == "invvol":
                 sd = r.std(axis=0, ddof=1)
@@ -221,8 +222,15 @@ def one(it):
                 if not (np.max(np.abs(share - 1.0 / len(sel))) <= 1e-3):
                     out.append(("erc_risk_contributions", {"equal_share": 1.0 / len(sel)}, {"weights": got, "shares": [float(x) for x in share]}))
             else:
-                if any(v > 1.0 + 1e-9 for v in got.values()):
-                    out.append(("meanvar_bounds", "<= 1", got))
+                mv_bounds = tuple(it[6]) if len(it) > 6 else (0.0, 1.0)
+                if any(not (mv_bounds[0] - 1e-9 <= v <= mv_bounds[1] + 1e-9) for v in got.values()):
+                    out.append(("meanvar_bounds", list(mv_bounds), got))
+                # the optimiser is ffn's: the algo hands it the window's returns and its own bounds, and keeps what it gets
+                import ffn
+
+                ref_w = ffn.calc_mean_var_weights(pd.DataFrame(r, columns=list(sel)), weight_bounds=mv_bounds, covar_method="standard", rf=0.0)
+                if any(not near(got[c], float(ref_w[c]), 1e-6) for c in sel):
+                    out.append(("meanvar_weights", {c: float(ref_w[c]) for c in sel}, got))
     elif kind == "randomly":
         nsel, bounds, total, seed = it[1], it[2], it[3], it[4]
         sel = COLS[:nsel] if nsel <= 3 else COLS + ["d", "e"][: nsel - 3]
@@ -373,6 +381,8 @@ def cases(tier, seed):
                         if lb >= 14 and lag <= 1:
                             out.append(("erc", tname, sel, now_i, lb, lag, "ledoit-wolf"))
                             out.append(("meanvar", tname, sel, now_i, lb, lag))
+                            if lag == 0:
+                                out.append(("meanvar", tname, sel, now_i, lb, lag, (-1.0, 1.0)))
     for nsel in (0, 1, 2, 3, 5):
         for bounds in ([0.0, 1.0], [0.25, 0.5], [-0.5, 0.5], [0.0, 0.25], [0.5, 0.25]):
             for total in (1.0, 0.5, 0.0):
